@@ -100,7 +100,7 @@ def structure(op):
     """Counts describing the tree: nodes, shared nodes, shared leaves, inserted FieldAdapters."""
     from nifty.cl.operators.operator import _OpChain, _OpProd, _OpSum
     from nifty.cl.operators.simple_linear_operators import FieldAdapter
-    node_ids, leaf_ids, chain_leaf_shared = {}, {}, 0
+    node_ids, leaf_ids = {}, {}
 
     def rec(o, under_node):
         if isinstance(o, (_OpSum, _OpProd)):
@@ -268,7 +268,8 @@ def run(case):
                 opt = ift.optimise_operator(op)
         except _Timeout as exc:
             return bad("optimise_operator did not terminate within %g s   [%s]" % (OPT_TIME_LIMIT, case["e"]),
-                       finding_key="does-not-terminate|optimise_operator", detail=dict(features=feat, interrupted_at=_site(exc)))
+                       finding_key="does-not-terminate|optimise_operator",
+                       detail=dict(features=feat, interrupted_at=_site(exc)))
         except AssertionError as exc:
             # the optimiser's own self-check fired: characterise the damage with the un-checked entry point
             from copy import deepcopy
